@@ -1317,6 +1317,10 @@ def comprehension(sx, node, st, kind):
         cond2 = z3.substitute(cond, (i, i2))
         s.assume(z3.ForAll([i, i2], z3.Implies(z3.And(i >= 0, i < i2, i2 < n, cond, cond2), cntf(i) < cntf(i2))))
         s.assume((rt.n(res.term) > 0) == z3.Exists([i], z3.And(i >= 0, i < n, cond)))
+        if not gen.ifs:
+            # no filter: one result element per source element (a ground consequence of the axioms above, stated for the
+            # quantifier-free feasibility checks)
+            s.assume(rt.n(res.term) == n)
         if isinstance(elt.ty, V._Str):
             ec = sx.str_class(elt, s)
             if sx.ALLSTR is None or not ec.eq(sx.ALLSTR):
